@@ -9,6 +9,7 @@
    lookup sees the entry a later `insert` with the same key would have written.
    Function names and branch structure follow the Rust code.  No proofs here. *)
 From Coq Require Import List NArith Arith Bool.
+From Coq Require Ascii String DecimalString.
 From DesVerif Require Import Common.Codec Tree.Path.
 Import ListNotations.
 Local Open Scope nat_scope.
@@ -21,6 +22,8 @@ Arguments Panic {A} site.
 Definition P_DUP : N := 1%N.      (* raw: "cannot create node .., node allready exists" *)
 Definition P_ORPHAN : N := 2%N.   (* raw: ".. since parent node .. is required, but does not exist" *)
 Definition P_TREE : N := 3%N.     (* ModuleTree::add: same message; proved unreachable through raw *)
+Definition P_NDL_DUP : N := 4%N.     (* raw_ndl: "cannot crate module at .., already exists" *)
+Definition P_NDL_ORPHAN : N := 5%N.  (* raw_ndl: "cannot create module, parent missing in NDL build" *)
 
 Record mref := { mpath : opath; mord : N; mstages : nat; mparent : option N }.
 
@@ -101,6 +104,73 @@ Definition raw (s : sim) (path : opath) (stages : nat) : outcome sim :=
       end
   end.
 
+(* ---- SimBuilder::raw_ndl (des/src/net/ndl/mod.rs): the same placement through ModuleTree::add,
+   own panic messages, and a node without non-root parent becomes a child of the module at path ""
+   when there is one (the root an NDL description attached at "" creates) ---- *)
+Definition raw_ndl (s : sim) (path : opath) (stages : nat) : outcome sim :=
+  match tree_get (modules s) path with
+  | Some _ => Panic P_NDL_DUP
+  | None =>
+      let ord := next_ord s in
+      let nm := name path in
+      let child_of (pm : mref) :=
+        let ctx := {| mpath := appended (mpath pm) nm; mord := ord; mstages := stages;
+                      mparent := Some (mord pm) |} in
+        match tree_add (modules s) ctx with
+        | Ok ms => Ok {| modules := ms; children := (mord pm, nm, ord) :: children s;
+                         next_ord := N.succ ord |}
+        | Panic k => Panic k
+        end in
+      match nonzero_parent path with
+      | Some par =>
+          match tree_get (modules s) par with
+          | None => Panic P_NDL_ORPHAN
+          | Some pm => child_of pm
+          end
+      | None =>
+          match tree_get (modules s) (from []) with
+          | Some zero_parent => child_of zero_parent
+          | None =>
+              let ctx := {| mpath := path; mord := ord; mstages := stages; mparent := None |} in
+              match tree_add (modules s) ctx with
+              | Ok ms => Ok {| modules := ms; children := children s; next_ord := N.succ ord |}
+              | Panic k => Panic k
+              end
+          end
+      end
+  end.
+
+(* SimBuilderScoped::ndl on a description in which every module type has at most one submodule
+   entry `name: T` or `name[k]: T` (no gates, no connections): the block is a list of levels
+   (k, name), k = 0 for an atom.  The tree is instantiated depth first: raw_ndl(scope), then for
+   every submodule instance the subtree at scope.appended(instance name). *)
+Definition decimal (i : nat) : list N :=
+  map Ascii.N_of_ascii (String.list_ascii_of_string (DecimalString.NilEmpty.string_of_uint (Nat.to_uint i))).
+
+(* Kardinality::Atom => [ident];  Kardinality::Cluster(n) => format!("{ident}[{k}]") for k in 0..n *)
+Definition sub_names (k : nat) (nm : list N) : list (list N) :=
+  match k with
+  | 0 => [nm]
+  | _ => map (fun i => nm ++ 91%N :: decimal i ++ [93%N]) (seq 0 k)
+  end.
+
+Fixpoint ndl_paths (scope : opath) (levels : list (nat * list N)) : list opath :=
+  scope :: match levels with
+           | [] => []
+           | (k, nm) :: rest => flat_map (fun sub => ndl_paths (appended scope sub) rest) (sub_names k nm)
+           end.
+
+(* the i-th created module takes the i-th stage count (1 when the list is exhausted); a panic
+   unwinds out of sim.node(..): what was created before stays *)
+Fixpoint ndl_all (s : sim) (ps : list opath) (sts : list nat) : sim * option N :=
+  match ps with
+  | [] => (s, None)
+  | p :: r => match raw_ndl s p (hd 1 sts) with
+              | Ok s' => ndl_all s' r (tl sts)
+              | Panic k => (s, Some k)
+              end
+  end.
+
 (* ModuleContext::child : children.get(name) *)
 Definition ctx_child (s : sim) (m : mref) (nm : list N) : option N :=
   match find (fun e => N.eqb (fst (fst e)) (mord m) && bytes_eqb (snd (fst e)) nm) (children s) with
@@ -126,7 +196,9 @@ Inductive op :=
 | QNode (path : list N)                        (* sim.get(path): ordinal, parent(), path().len/as_str/name *)
 | QChild (path : list N) (nm : list N)         (* sim.get(path).child(name) *)
 | PFrom (s : list N)                           (* ObjectPath::from(s) and its parent() *)
-| PApp (s : list N) (nm : list N).             (* ObjectPath::from(s).appended(name) *)
+| PApp (s : list N) (nm : list N)              (* ObjectPath::from(s).appended(name) *)
+| NdlBlock (path : list N) (levels : list (nat * list N)) (stages : list nat).
+                                               (* sim.node(path, Ndl::new(registry, def of the block)) *)
 
 Definition lp (l : list N) : list N := N.of_nat (length l) :: l.
 Definition opt_ord (o : option N) : N := match o with Some k => N.succ k | None => 0%N end.
@@ -167,6 +239,11 @@ Definition step (s : sim) (o : op) : sim * list N :=
       (s, [5%N; N.of_nat (len a)] ++ lp (as_str a) ++ lp (name a)
           ++ [b2n (opath_eqb a (from (as_str a)));
               b2n (match parent a with Some q => opath_eqb q p | None => false end)])
+  | NdlBlock p levels sts =>
+      match ndl_all s (ndl_paths (from p) levels) sts with
+      | (s', None) => (s', [1%N])
+      | (s', Some k) => (s', [9%N; k])
+      end
   end.
 
 Fixpoint run_from (s : sim) (ops : list op) : sim * list N :=
@@ -207,8 +284,18 @@ Definition utf8 (c : N) : list N :=
 Definition take_str (l : list N) : list N * list N :=
   let '(cs, r) := take_lp l in (flat_map utf8 cs, r).
 
-(* script: op*  with op = 1 stages <str> | 2 <str> | 3 <str> <str> | 4 <str> | 5 <str> <str>;
-   stage counts are taken modulo 8 *)
+Fixpoint take_levels (n : nat) (l : list N) : list (nat * list N) * list N :=
+  match n with
+  | O => ([], l)
+  | S n' => match l with
+            | [] => ([], [])
+            | k :: r => let '(nm, r') := take_str r in
+                        let '(ls, r'') := take_levels n' r' in ((N.to_nat (k mod 5), nm) :: ls, r'')
+            end
+  end.
+
+(* script: op*  with op = 1 stages <str> | 2 <str> | 3 <str> <str> | 4 <str> | 5 <str> <str>
+   | 6 <str> L (k <str>)^(L mod 4) <stage list>;   stage counts are taken modulo 8, cluster sizes modulo 5 *)
 Definition dec_op (l : list N) : option (op * list N) :=
   match l with
   | 1 :: st :: r => let '(p, r') := take_str r in Some (Node (N.to_nat (st mod 8)) p, r')
@@ -216,6 +303,11 @@ Definition dec_op (l : list N) : option (op * list N) :=
   | 3 :: r => let '(p, r') := take_str r in let '(n, r'') := take_str r' in Some (QChild p n, r'')
   | 4 :: r => let '(p, r') := take_str r in Some (PFrom p, r')
   | 5 :: r => let '(p, r') := take_str r in let '(n, r'') := take_str r' in Some (PApp p n, r'')
+  | 6 :: r => let '(p, r1) := take_str r in
+              let '(nl, r2) := match r1 with [] => (0, []) | x :: t => (x, t) end in
+              let '(ls, r3) := take_levels (N.to_nat (nl mod 4)) r2 in
+              let '(sts, r4) := take_lp r3 in
+              Some (NdlBlock p ls (map (fun x => N.to_nat (x mod 8)) sts), r4)
   | _ => None
   end.
 
